@@ -20,10 +20,10 @@ Section Tracks.
     tracks (ds s) v -> tracks (ds (fst (push_again A fx s p))) (vapply v (snd (push_again A fx s p))).
   Proof. intros H. rewrite push_again_eq. cbn [fst snd ds]. apply tracks_push_all_again. exact H. Qed.
 
-  Lemma did_open_tracks dk s f t v :
-    tracks (ds s) v -> tracks (ds (fst (did_open A fx dk s f t))) (vapply v (snd (did_open A fx dk s f t))).
+  Lemma did_open_base_tracks dk s f t v :
+    tracks (ds s) v -> tracks (ds (fst (did_open_base A fx dk s f t))) (vapply v (snd (did_open_base A fx dk s f t))).
   Proof.
-    intros H. unfold did_open.
+    intros H. unfold did_open_base.
     set (p0 := set_lru A (pj s) (frem f (p_lru (pj s)))).
     set (s0 := {| pj := p0; cache := aset (cache s) f t; ds := unmark_clean (ds s) f |}).
     assert (H0 : tracks (ds s0) v) by exact H.
@@ -41,15 +41,31 @@ Section Tracks.
     rewrite vapply_app. pose proof (tracks_clear_change (ds s1) f (vapply v ps1) H1) as HH. rewrite E2 in HH. exact HH.
   Qed.
 
-  Lemma did_change_tracks s f t v :
-    tracks (ds s) v -> tracks (ds (fst (did_change A s f t))) (vapply v (snd (did_change A s f t))).
+  Lemma analyse_buffer_tracks s f t v :
+    tracks (ds s) v -> tracks (ds (fst (analyse_buffer A s f t))) (vapply v (snd (analyse_buffer A s f t))).
   Proof.
-    intros H. unfold did_change. destruct (aget (cache s) f); [|exact H].
+    intros H. unfold analyse_buffer.
     destruct (is_nil (syn A t)).
     - destruct (clear_change (ds s) f) as [d1 ps1] eqn:E1. cbn [fst snd ds]. rewrite vapply_app.
       apply tracks_set_clean. apply tracks_clear_syntax. pose proof (tracks_clear_change (ds s) f v H) as HH. rewrite E1 in HH. exact HH.
     - destruct (insert_change (ds s) f (syn A t)) as [d1 ps1] eqn:E1. cbn [fst snd ds].
       pose proof (tracks_insert_change (ds s) f (syn A t) v H) as HH. rewrite E1 in HH. exact HH.
+  Qed.
+
+  Lemma did_change_tracks s f t v :
+    tracks (ds s) v -> tracks (ds (fst (did_change A s f t))) (vapply v (snd (did_change A s f t))).
+  Proof.
+    intros H. unfold did_change. destruct (aget (cache s) f); [|exact H]. apply analyse_buffer_tracks. exact H.
+  Qed.
+
+  Lemma did_open_tracks dk s f t v :
+    tracks (ds s) v -> tracks (ds (fst (did_open A fx dk s f t))) (vapply v (snd (did_open A fx dk s f t))).
+  Proof.
+    intros H. unfold did_open. pose proof (did_open_base_tracks dk s f t v H) as H1.
+    destruct (did_open_base A fx dk s f t) as [s2 ps]. cbn [fst snd] in H1.
+    destruct (fix_didopen fx && open_differs A dk f t); [|exact H1].
+    pose proof (analyse_buffer_tracks s2 f t (vapply v ps) H1) as H2.
+    destruct (analyse_buffer A s2 f t) as [s3 ps3]. cbn [fst snd] in *. rewrite vapply_app. exact H2.
   Qed.
 
   Lemma did_save_tracks dk s f t v :
@@ -156,13 +172,14 @@ Section Tracks.
   Lemma act_tracks w a v :
     tracks (ds (sv w)) v -> tracks (ds (sv (fst (act A fx w a)))) (vapply v (snd (act A fx w a))).
   Proof.
-    intros H. destruct a as [f|f t|f|f|l|e]; cbn [act].
+    intros H. destruct a as [f|f t|f|f|l|e|f t]; cbn [act].
     - destruct (aget (disk w) f); [|exact H]. destruct (aget (ebuf w) f); [exact H|]. apply steps_tracks'. exact H.
     - destruct (aget (ebuf w) f); [|exact H]. apply steps_tracks'. exact H.
     - destruct (aget (ebuf w) f); [|exact H]. apply steps_tracks'. exact H.
     - destruct (aget (ebuf w) f); [|exact H]. apply steps_tracks'. exact H.
     - apply steps_tracks'. exact H.
     - apply step_tracks. exact H.
+    - destruct (aget (disk w) f); [|exact H]. destruct (aget (ebuf w) f); [exact H|]. apply steps_tracks'. exact H.
   Qed.
 
   Lemma run_from_tracks h : forall w ps0,
